@@ -5,7 +5,7 @@
     (cl, id) on the chain named I, whose direction test said "away" and which put
     (cl, id) into the escrow account there.
     Conditional on [paths_wf] of the sending chain's state: every class path is
-    the '/'-free class itself or a voucher path of at least two chains -- this is
+    (of an existing class) the '/'-free class itself or a voucher path of at least two chains -- this is
     what "no user-issued class contains '/'" (finding D4) gives together with the
     trace-store invariant; it is a premise here, not derived. *)
 From Tibc Require Import Base.Bytes Base.BytesFacts Base.FMap Host.Keys Host.KeysFacts Routing.Rules
@@ -16,7 +16,7 @@ From Tibc Require Import Base.Bytes Base.BytesFacts Base.FMap Host.Keys Host.Key
 
 (** the class paths a chain's NFT module would put into a packet are well-formed *)
 Definition paths_wf (st : nft_state) : Prop :=
-  forall class fp, class_path_of st class = Some fp ->
+  forall class fp, has_class class st = true -> class_path_of st class = Some fp ->
     (noslash fp /\ fp = class) \/
     (exists p b, fp = full NFT_PFX p b /\ all_noslash p /\ noslash b /\ (2 <= length p)%nat).
 
@@ -51,6 +51,14 @@ Definition sends_roundtrip (n0 : anet) (ops : list anop) : Prop :=
     step_at n0 ops pre (AUser i now (UNftSend class id sender receiver dest relay contract)) post
             i ci now (HUser (UNftSend class id sender receiver dest relay contract)) c' [ESend q] ->
     dec_nft (p_data q) = send_record (with_now ci now) class id sender receiver dest contract.
+
+Lemma send_has_class (c : achain) class id sender receiver dest relay contract c' ev :
+  xexec c (HUser (UNftSend class id sender receiver dest relay contract)) = Some (c', ev) ->
+  has_class class (nft_of c) = true.
+Proof.
+  cbn [hexec user_exec]. unfold nft_of, nft_send.
+  destruct (has_class class (a_nft (c_app app_state c))); [reflexivity|discriminate].
+Qed.
 
 Theorem voucher_creation_exact n0 ops pre o post j cj now h c' ev nI nJ cl id :
   hist_ok n0 ops -> Forall no_raw_nft_send ops -> sends_roundtrip n0 ops ->
@@ -90,12 +98,13 @@ Proof.
   { cbn [hexec exec] in X. apply msg_recv_app in X. destruct X as (_ & [(AP & _)|(DD & _)]).
     - exfalso. apply T1. unfold nft_of. rewrite AP. exact T0.
     - rewrite DD. exact NJ. }
-  pose proof ST1 as (_ & Hk & _ & _ & _).
+  pose proof ST1 as (_ & Hk & _ & X1 & _).
+  pose proof (send_has_class _ _ _ _ _ _ _ _ _ _ X1) as HC.
   assert (NSRC : noslash (p_src p)) by (rewrite <- NM; exact (NN _ _ _ Hk)).
   assert (NDST : noslash nJ) by (rewrite <- NJ; exact (NN _ _ _ Hj)).
   assert (DE : dest = nJ) by (rewrite <- DST, <- K2, QE; reflexivity).
   subst dest. rewrite DST in CE.
-  destruct (PW _ _ _ Hk cl1 fp CP) as [(NF & ->)|(pp & bb & -> & PP & BB & LL)].
+  destruct (PW _ _ _ Hk cl1 fp HC CP) as [(NF & ->)|(pp & bb & -> & PP & BB & LL)].
   - destruct (voucher_native_inj nI nJ cl (p_src p) nJ cl1 NI NDST CL NSRC NDST NF CE) as (E1 & _ & E3).
     subst cl1. exists k, pre1, post1, now1, sender, receiver, relay, contract, ck, ck', q, uri.
     split; [exact ST1|]. split; [congruence|]. split; [congruence|]. split; [exact K4|].
